@@ -501,6 +501,64 @@ Proof.
   - intros x Lx. destruct (SC x). auto.
 Qed.
 
+Lemma In_remove_nat x e l : In x l -> x <> e -> In x (remove_nat e l).
+Proof.
+  induction l as [|h t IH]; simpl; intros H N; auto. destruct (Nat.eqb h e) eqn:E.
+  - apply Nat.eqb_eq in E. destruct H; [congruence|auto].
+  - destruct H; [now left|right; auto].
+Qed.
+
+Lemma pend_zero s e en : Inv s -> nth_error (heap s) e = Some en -> e_closed en = false ->
+  cur_is (rl_cur s) e = false /\ cur_is (sw_cur s) e = false /\ pc_pend en = false.
+Proof.
+  intros HI G C. destruct (Inv_core _ HI) as (_ & _ & CC & _).
+  assert (L : (e < length (heap s))%nat) by (apply nth_error_Some; congruence).
+  assert (X : closedf s e = false) by (unfold closedf; now rewrite G).
+  destruct (CC e L X) as [_ P]. unfold pend, hp in P. rewrite G in P.
+  destruct (cur_is (rl_cur s) e), (cur_is (sw_cur s) e), (pc_pend en); simpl in P; auto; lia.
+Qed.
+
+Lemma close_won_state s s' e en en' :
+  Inv s -> nth_error (heap s) e = Some en -> e_closed en = false ->
+  heap s' = upd e en' (heap s) -> e_sid en' = e_sid en -> e_closed en' = true -> table s' = table s ->
+  (b2n (cur_is (rl_cur s') e) + b2n (cur_is (sw_cur s') e) + b2n (pc_pend en') = 1)%nat ->
+  (forall x, x <> e -> cur_is (rl_cur s') x = cur_is (rl_cur s) x /\ cur_is (sw_cur s') x = cur_is (sw_cur s) x) ->
+  rl_ok s' -> all_einv s' -> Inv s'.
+Proof.
+  intros HI G C0 HH S1 C1 T P1 P2 RO EI.
+  assert (L : (e < length (heap s))%nat) by (apply nth_error_Some; congruence).
+  eapply Inv_close_won; eauto.
+  - unfold pend, hp. rewrite HH, (nth_upd_eq _ _ _ _ G). exact P1.
+  - intros x N. destruct (P2 x N) as [A B]. unfold pend, hp. rewrite A, B, HH, nth_upd_neq; auto.
+  - intros x X. rewrite HH, upd_length. destruct (Nat.eq_dec x e) as [->|N]; auto.
+    destruct (P2 x N) as [A B]. rewrite A, B in X. destruct HI as (_ & CV & _). now apply CV.
+Qed.
+
+Lemma del_state s s' e en :
+  Inv s -> nth_error (heap s) e = Some en ->
+  (1 <= b2n (cur_is (rl_cur s) e) + b2n (cur_is (sw_cur s) e) + b2n (pc_pend en))%nat ->
+  table s' = remove_sid (e_sid en) (table s) ->
+  (heap s' = heap s \/ exists en', heap s' = upd e en' (heap s) /\ e_sid en' = e_sid en /\ e_closed en' = e_closed en) ->
+  pend s' e = 0%nat ->
+  (forall x, x <> e -> cur_is (rl_cur s') x = cur_is (rl_cur s) x /\ cur_is (sw_cur s') x = cur_is (sw_cur s) x) ->
+  (forall x, cur_is (rl_cur s') x = true \/ cur_is (sw_cur s') x = true ->
+             cur_is (rl_cur s) x = true \/ cur_is (sw_cur s) x = true) ->
+  rl_ok s' -> all_einv s' -> Inv s'.
+Proof.
+  intros HI G P T HH P0 P2 P3 RO EI.
+  assert (LL : length (heap s') = length (heap s)).
+  { destruct HH as [->|(en' & -> & _)]; auto. apply upd_length. }
+  eapply Inv_del; eauto.
+  - unfold pend, hp. now rewrite G.
+  - intros x. unfold sidf, closedf. destruct HH as [->|(en' & -> & S1 & S2)]; auto.
+    destruct (Nat.eq_dec e x) as [->|N].
+    + rewrite (nth_upd_eq _ _ _ _ G), G. auto.
+    + rewrite nth_upd_neq; auto.
+  - intros x N. destruct (P2 x N) as [A B]. unfold pend, hp. rewrite A, B.
+    destruct HH as [->|(en' & -> & _)]; auto. rewrite nth_upd_neq; auto.
+  - intros x X. rewrite LL. apply P3 in X. destruct HI as (_ & CV & _). now apply CV.
+Qed.
+
 Section Pres.
 Variable timeout : N.
 
@@ -517,3 +575,684 @@ Proof.
     eapply erel_einv; eauto. destruct HI as (_ & _ & _ & D). eapply D; eauto.
   - apply fresh_einv. eapply H2; eauto.
 Qed.
+
+Ltac ei_tac EI := (let x := fresh in let y := fresh in let Hx := fresh in
+  intros x y Hx; eapply EI; rewrite ?heap_rl_after, ?heap_sw_after; simpl; exact Hx).
+
+Ltac curs := intros x; unfold rl_cur, sw_cur; simpl;
+  repeat match goal with E : rl _ = _ |- _ => rewrite E | E : sw _ = _ |- _ => rewrite E end; split; reflexivity.
+
+Lemma rl_ok_upd s e0 en en' :
+  rl_ok s -> nth_error (heap s) e0 = Some en -> e_sid en' = e_sid en -> (e_closed en = true -> e_closed en' = true) ->
+  rl_ok (set_entry s e0 en').
+Proof.
+  intros RO G S1 S2. eapply rl_ok_mono; [exact RO | reflexivity | simpl; apply upd_length | | auto].
+  intros x Lx. unfold sidf, closedf. simpl. destruct (Nat.eq_dec e0 x) as [->|N].
+  - rewrite (nth_upd_eq _ _ _ _ G), G. split; auto.
+  - rewrite nth_upd_neq; auto.
+Qed.
+
+Lemma step_Inv s a s' ev : Inv s -> step timeout s a = Some (s', ev) -> Inv s'.
+Proof.
+  intros HI H. pose proof (step_einv _ _ _ _ HI H) as EI. revert EI H.
+  pose proof (Inv_core _ HI) as (CA & CB & CC & CD).
+  pose proof HI as (_ & CV & RO & _).
+  destruct a as [sid c| | | | | | |ok|ok| |e ok|e|e ok|t e|t|t| | | |d]; simpl; intros EI H.
+  all: dmatch H; inversion H; subst; clear H.
+  all: unfold get in *.
+  (* frame actions whose heap is unchanged *)
+  all: try (eapply Inv_frame; [exact HI | reflexivity | reflexivity | apply ptw_same; [reflexivity|] | | | exact EI];
+            [ curs | curs | ]).
+  all: try (unfold rl_ok; simpl; exact I).
+  all: try exact RO.
+  (* frame actions that update one entry without touching id, closed flag, pending status *)
+  all: try (match goal with G : nth_error (heap ?s) ?e = Some ?en |- Inv _ =>
+              eapply Inv_frame; [exact HI | reflexivity | simpl; apply upd_length
+                                | eapply ptw_upd; [exact G | reflexivity | reflexivity | reflexivity | | ] | | | exact EI];
+              [ unfold pc_pend; simpl; repeat match goal with E : e_pc _ = _ |- _ => rewrite E end; reflexivity
+              | curs | curs | ]
+            end).
+  all: try (match goal with G : nth_error (heap ?s) ?e = Some ?en |- rl_ok (set_entry ?s ?e _) =>
+              apply (rl_ok_upd _ _ _ _ RO G); simpl; auto end).
+  all: try (unfold rl_ok; simpl; exact I).
+  - (* ALookup hit *) unfold rl_ok; simpl. apply find_In in E0. apply CA in E0. exact E0.
+  - (* ALookup miss *) unfold rl_ok; simpl. now apply find_None.
+  - (* AInsert *)
+    unfold rl_ok in RO. rewrite E in RO.
+    assert (NS : forall x, cur_is (sw_cur s) x = true -> (x < length (heap s))%nat) by (intros x Hx; apply CV; auto).
+    assert (RC : rl_cur s = None) by (unfold rl_cur; now rewrite E).
+    split; [|split; [|split]]; auto.
+    + simpl. rewrite app_length. simpl. rewrite Nat.add_1_r.
+      eapply core_insert; [split; [exact CA|split; [exact CB|split; [exact CC|exact CD]]] | exact RO | | | |].
+      * unfold sidf. simpl. rewrite nth_error_app2 by lia. rewrite Nat.sub_diag. reflexivity.
+      * unfold closedf. simpl. rewrite nth_error_app2 by lia. rewrite Nat.sub_diag. reflexivity.
+      * unfold pend, hp, rl_cur, sw_cur. simpl. rewrite nth_error_app2 by lia. rewrite Nat.sub_diag. simpl.
+        destruct (cur_is (sw_cur s) (length (heap s))) eqn:X; [apply NS in X; lia|]. unfold sw_cur in X. rewrite X. reflexivity.
+      * intros x Lx. unfold sidf, closedf, pend, hp, rl_cur, sw_cur. simpl. rewrite nth_error_app1 by lia.
+        unfold rl_cur in RC. rewrite RC. auto.
+    + intros x [X|X]; simpl in *; [discriminate|]. rewrite app_length. simpl. apply NS in X. lia.
+    + unfold rl_ok. simpl. rewrite app_length. simpl. split; [lia|].
+      unfold sidf. simpl. rewrite nth_error_app2 by lia. rewrite Nat.sub_diag. reflexivity.
+  - (* AFeed -> RWrite *)
+    unfold rl_ok in *. rewrite E in RO. simpl. rewrite upd_length. destruct RO as [L S]. split; auto.
+    unfold sidf in *. simpl. rewrite (nth_upd_eq _ _ _ _ E0). rewrite E0 in S. exact S.
+  - (* AFeed -> RInit *)
+    unfold rl_ok in *. rewrite E in RO. simpl. rewrite upd_length. destruct RO as [L S]. split; auto.
+    unfold sidf in *. simpl. rewrite (nth_upd_eq _ _ _ _ E0). rewrite E0 in S. exact S.
+  - (* ADial true *)
+    assert (L : (e < length (heap s))%nat) by (apply nth_error_Some; congruence).
+    assert (PP : pc_pend e0 = false).
+    { assert (X : closedf s e = false) by (unfold closedf; now rewrite E0).
+      destruct (CC e L X) as [_ P]. unfold pend, hp in P. rewrite E0 in P. destruct (pc_pend e0); auto. simpl in P. lia. }
+    eapply Inv_frame; [exact HI | reflexivity | simpl; apply upd_length
+                      | eapply ptw_upd; [exact E0 | reflexivity | reflexivity | simpl; now rewrite E1 | simpl; now rewrite PP | ] | | | exact EI].
+    + curs.
+    + curs.
+    + unfold rl_ok in *. rewrite E in RO. simpl. rewrite upd_length. destruct RO as [L' S]. split; auto.
+      unfold sidf in *. simpl. rewrite (nth_upd_eq _ _ _ _ E0). rewrite E0 in S. exact S.
+  - (* AClose1 TRL *)
+    apply Inv_rl_after.
+    match goal with E : rl s = RClose _ _, H : closer_c1 s _ e = Some _ |- _ => rename E into ER; rename H into HC end.
+    destruct cl as [todo cur0]. apply closer_c1_spec in HC. destruct HC as (won & C1 & CN & ->). simpl in CN. subst cur0. simpl.
+    apply close1_spec in C1. destruct C1 as (en & G & [(C & -> & -> & _)|(C & -> & -> & _)]); unfold get in G.
+    + (* already closed *)
+      eapply Inv_frame; [exact HI | reflexivity | reflexivity | apply ptw_same; [reflexivity|] | | | ei_tac EI]; [curs|curs|].
+      unfold rl_ok in *. rewrite ER in RO. simpl. destruct exiting; auto.
+      intros x Lx Cx. apply In_remove_nat; auto. intros ->. unfold closedf in Cx. simpl in Cx. rewrite G in Cx. congruence.
+    + destruct (pend_zero _ _ _ HI G C) as (Z1 & Z2 & Z3).
+      eapply close_won_state; [exact HI | exact G | exact C | reflexivity | reflexivity | reflexivity | reflexivity | | | | ei_tac EI].
+      * unfold rl_cur, sw_cur in *. simpl. rewrite Nat.eqb_refl. simpl in Z2. rewrite Z2. unfold pc_pend in *. simpl. rewrite Z3. reflexivity.
+      * intros x N. unfold rl_cur, sw_cur. simpl. rewrite ER. simpl. split; auto. apply Nat.eqb_neq. auto.
+      * unfold rl_ok in *. rewrite ER in RO. simpl. destruct exiting; auto. rewrite upd_length.
+        intros x Lx Cx. assert (x <> e).
+        { intros ->. unfold closedf in Cx. simpl in Cx. rewrite (nth_upd_eq _ _ _ _ G) in Cx. discriminate. }
+        apply In_remove_nat; auto. apply RO; auto. unfold closedf in *. simpl in Cx. rewrite nth_upd_neq in Cx; auto.
+  - (* AClose1 TSW *)
+    apply Inv_sw_after.
+    match goal with E : sw s = SClose _, H : closer_c1 s _ e = Some _ |- _ => rename E into ES; rename H into HC end.
+    destruct cl as [todo cur0]. apply closer_c1_spec in HC. destruct HC as (won & C1 & CN & ->). simpl in CN. subst cur0. simpl.
+    apply close1_spec in C1. destruct C1 as (en & G & [(C & -> & -> & _)|(C & -> & -> & _)]); unfold get in G.
+    + eapply Inv_frame; [exact HI | reflexivity | reflexivity | apply ptw_same; [reflexivity|] | | exact RO | ei_tac EI]; [curs|curs].
+    + destruct (pend_zero _ _ _ HI G C) as (Z1 & Z2 & Z3).
+      eapply close_won_state; [exact HI | exact G | exact C | reflexivity | reflexivity | reflexivity | reflexivity | | | | ei_tac EI].
+      * unfold rl_cur, sw_cur in *. simpl. rewrite Nat.eqb_refl. simpl in Z1. rewrite Z1. unfold pc_pend in *. simpl. rewrite Z3. reflexivity.
+      * intros x N. unfold rl_cur, sw_cur. simpl. rewrite ES. simpl. split; auto. apply Nat.eqb_neq. auto.
+      * apply (rl_ok_upd _ _ _ _ RO G); simpl; auto.
+  - (* AClose1 TRP won *)
+    match goal with H : (_ =? _)%nat = true |- _ => apply Nat.eqb_eq in H; subst end.
+    match goal with H : close1 _ _ = Some _ |- _ => apply close1_spec in H;
+      destruct H as (en & G & [(C & -> & X & _)|(C & _ & -> & _)]); [discriminate|] end.
+    unfold get in G. simpl in *.
+    match goal with H : nth_error (upd _ _ _) _ = Some _ |- _ => rewrite (nth_upd_eq _ _ _ _ G) in H; inversion H; subst; clear H end.
+    destruct (pend_zero _ _ _ HI G C) as (Z1 & Z2 & Z3).
+    eapply close_won_state; [exact HI | exact G | exact C | simpl; apply upd_upd | reflexivity | reflexivity | reflexivity | | | | exact EI].
+    + unfold rl_cur, sw_cur in *. simpl. rewrite Z1, Z2. reflexivity.
+    + intros x N. split; reflexivity.
+    + eapply rl_ok_upd; [apply (rl_ok_upd _ _ _ _ RO G); simpl; auto | simpl; eapply nth_upd_eq; eauto | reflexivity | auto].
+  - (* AClose1 TRP lost *)
+    match goal with H : (_ =? _)%nat = true |- _ => apply Nat.eqb_eq in H; subst end.
+    match goal with H : close1 _ _ = Some _ |- _ => apply close1_spec in H;
+      destruct H as (en & G & [(C & -> & _)|(C & X & _)]); [|discriminate] end.
+    unfold get in G.
+    match goal with H : nth_error (heap s) e = Some ?y |- Inv (set_entry s e (set_pc ?y _)) =>
+      assert (y = en) by congruence; subst end.
+    repeat match goal with A : nth_error (heap s) e = Some ?a, B : nth_error (heap s) e = Some ?b |- _ =>
+      first [constr_eq a b; fail 1 | assert (a = b) by congruence; subst a] end.
+    eapply Inv_frame; [exact HI | reflexivity | simpl; apply upd_length
+                      | eapply ptw_upd; [exact G | reflexivity | reflexivity | reflexivity | | ] | | | exact EI].
+    + unfold pc_pend; simpl. repeat match goal with E : e_pc _ = _ |- _ => rewrite E end. reflexivity.
+    + curs.
+    + curs.
+    + apply (rl_ok_upd _ _ _ _ RO G); simpl; auto.
+  - (* ACloseLog TRL *)
+    match goal with E : rl s = RClose _ _, H : closer_log s _ = Some _ |- _ => rename E into ER; rename H into HC end.
+    unfold closer_log in HC. destruct cl as [todo [[x0 b]|]]; [|discriminate]. destruct b; [discriminate|].
+    destruct (get s x0); [|discriminate]. inversion HC; subst; clear HC.
+    eapply Inv_frame; [exact HI | reflexivity | reflexivity | apply ptw_same; [reflexivity|] | | | exact EI]; [curs|curs|].
+    unfold rl_ok in *. rewrite ER in RO. simpl. exact RO.
+  - (* ACloseLog TSW *)
+    match goal with E : sw s = SClose _, H : closer_log s _ = Some _ |- _ => rename E into ES; rename H into HC end.
+    unfold closer_log in HC. destruct cl as [todo [[x0 b]|]]; [|discriminate]. destruct b; [discriminate|].
+    destruct (get s x0); [|discriminate]. inversion HC; subst; clear HC.
+    eapply Inv_frame; [exact HI | reflexivity | reflexivity | apply ptw_same; [reflexivity|] | | exact RO | exact EI]; [curs|curs].
+  - (* ACloseDel TRL *)
+    apply Inv_rl_after.
+    match goal with E : rl s = RClose _ _, H : closer_del s _ = Some _ |- _ => rename E into ER; rename H into HC end.
+    unfold closer_del in HC. destruct cl as [todo [[x0 b]|]]; [|discriminate]. destruct b; [|discriminate].
+    destruct (get s x0) as [en|] eqn:G; [|discriminate]. unfold get in G. inversion HC; subst; clear HC.
+    assert (L : (x0 < length (heap s))%nat) by (apply nth_error_Some; congruence).
+    assert (R1 : cur_is (rl_cur s) x0 = true) by (unfold rl_cur; rewrite ER; simpl; apply Nat.eqb_refl).
+    assert (P1 : (1 <= pend s x0)%nat) by (unfold pend; rewrite R1; simpl; lia).
+    destruct (pend_pos _ _ HI L P1) as [_ P]. unfold pend in P. rewrite R1 in P. simpl in P.
+    eapply del_state with (e := x0); [exact HI | exact G | rewrite R1; simpl; lia | reflexivity | left; reflexivity | | | | | ei_tac EI].
+    + unfold pend, rl_cur, sw_cur. simpl. fold (sw_cur s). unfold hp in *. simpl. lia.
+    + intros x N. unfold rl_cur, sw_cur. simpl. rewrite ER. simpl. split; auto. symmetry. apply Nat.eqb_neq. auto.
+    + intros x [X|X]; [discriminate|right; exact X].
+    + unfold rl_ok in *. rewrite ER in RO. simpl. exact RO.
+  - (* ACloseDel TSW *)
+    apply Inv_sw_after.
+    match goal with E : sw s = SClose _, H : closer_del s _ = Some _ |- _ => rename E into ES; rename H into HC end.
+    unfold closer_del in HC. destruct cl as [todo [[x0 b]|]]; [|discriminate]. destruct b; [|discriminate].
+    destruct (get s x0) as [en|] eqn:G; [|discriminate]. unfold get in G. inversion HC; subst; clear HC.
+    assert (L : (x0 < length (heap s))%nat) by (apply nth_error_Some; congruence).
+    assert (R1 : cur_is (sw_cur s) x0 = true) by (unfold sw_cur; rewrite ES; simpl; apply Nat.eqb_refl).
+    assert (P1 : (1 <= pend s x0)%nat) by (unfold pend; rewrite R1; simpl; lia).
+    destruct (pend_pos _ _ HI L P1) as [_ P]. unfold pend in P. rewrite R1 in P. simpl in P.
+    eapply del_state with (e := x0); [exact HI | exact G | rewrite R1; simpl; lia | reflexivity | left; reflexivity | | | | | ei_tac EI].
+    + unfold pend, rl_cur, sw_cur. simpl. fold (rl_cur s). unfold hp in *. simpl. lia.
+    + intros x N. unfold rl_cur, sw_cur. simpl. rewrite ES. simpl. split; auto. symmetry. apply Nat.eqb_neq. auto.
+    + intros x [X|X]; [left; exact X|discriminate].
+    + eapply rl_ok_mono; [exact RO | reflexivity | reflexivity | intros x Lx; split; auto | ].
+      intros k x I. simpl in I. apply remove_sid_In in I. tauto.
+  - (* ACloseDel TRP *)
+    match goal with G : nth_error (heap s) e = Some ?y, P : e_pc ?y = PC3 |- _ => rename G into GG; rename P into PP end.
+    assert (L : (e < length (heap s))%nat) by (apply nth_error_Some; congruence).
+    assert (H1 : hp s e = 1%nat) by (unfold hp, pc_pend; rewrite GG, PP; reflexivity).
+    assert (P1 : (1 <= pend s e)%nat) by (unfold pend; lia).
+    destruct (pend_pos _ _ HI L P1) as [_ P]. unfold pend in P.
+    eapply del_state with (e := e); [exact HI | exact GG | unfold pc_pend; rewrite PP; simpl; lia | reflexivity
+                                    | right; eexists; split; [reflexivity|split; reflexivity] | | | | | exact EI].
+    + unfold pend, hp, rl_cur, sw_cur. simpl. fold (rl_cur s). fold (sw_cur s). rewrite (nth_upd_eq _ _ _ _ GG). simpl. lia.
+    + intros x N. split; reflexivity.
+    + intros x X. exact X.
+    + eapply rl_ok_mono; [apply (rl_ok_upd s e e0 (set_pc e0 PDone) RO GG); simpl; auto | reflexivity | reflexivity | intros x Lx; split; auto | ].
+      intros k x I. simpl in I. apply remove_sid_In in I. tauto.
+  - (* ASnapAll, empty table *)
+    unfold rl_ok. simpl. intros x Lx. destruct (closedf s x) eqn:X; auto. exfalso.
+    destruct (CC x Lx X) as [I _]. apply (in_map snd) in I. simpl in I.
+    match goal with E : map snd (table s) = [] |- _ => rewrite E in I end. destruct I.
+  - (* ASnapAll *)
+    unfold rl_ok. simpl. intros x Lx X. destruct (CC x Lx X) as [I _]. apply (in_map snd) in I. simpl in I.
+    match goal with E : map snd (table s) = _ |- _ => rewrite E in I end. exact I.
+Qed.
+
+(* ------------------------------------------------------------------ *)
+(* runs                                                                *)
+(* ------------------------------------------------------------------ *)
+Lemma run_Inv acts : forall s s' tr, Inv s -> run timeout s acts = Some (s', tr) -> Inv s'.
+Proof.
+  induction acts as [|a t IH]; simpl; intros s s' tr HI H.
+  - inversion H; subst; auto.
+  - destruct (step timeout s a) as [[s1 ev]|] eqn:S; [|discriminate].
+    destruct (run timeout s1 t) as [[s2 tr']|] eqn:R; [|discriminate].
+    inversion H; subst. eapply IH; [|exact R]. eapply step_Inv; eauto.
+Qed.
+
+Lemma reach_Inv acts s tr : run timeout init acts = Some (s, tr) -> Inv s.
+Proof. apply run_Inv. apply Inv_init. Qed.
+End Pres.
+
+(* ------------------------------------------------------------------ *)
+(* sockets: allocation indices are unique                              *)
+(* ------------------------------------------------------------------ *)
+Definition socks (s : state) : list (option N) := map e_sock (heap s).
+
+Definition good (l : list (option N)) (n : N) : Prop :=
+  forall i k, nth_error l i = Some (Some k) -> k < n /\ forall j, nth_error l j = Some (Some k) -> i = j.
+
+Lemma map_upd {A B} (f : A -> B) i x l : map f (upd i x l) = upd i (f x) (map f l).
+Proof. revert i; induction l as [|h t IH]; intros [|i]; simpl; auto. now rewrite IH. Qed.
+
+Lemma upd_same {A} i (x : A) l : nth_error l i = Some x -> upd i x l = l.
+Proof. revert i; induction l as [|h t IH]; intros [|i]; simpl; intros H; try discriminate; auto.
+  - now inversion H. - now rewrite IH. Qed.
+
+Lemma good_app l n : good l n -> good (l ++ [None]) n.
+Proof.
+  intros G i k H.
+  assert (Hi : nth_error l i = Some (Some k)).
+  { destruct (Nat.lt_ge_cases i (length l)) as [L|L].
+    - now rewrite nth_error_app1 in H.
+    - rewrite nth_error_app2 in H by auto. destruct (i - length l)%nat as [|[|m]]; simpl in H; discriminate. }
+  destruct (G i k Hi) as [A B]. split; auto. intros j Hj. apply B.
+  destruct (Nat.lt_ge_cases j (length l)) as [L|L].
+  - now rewrite nth_error_app1 in Hj.
+  - rewrite nth_error_app2 in Hj by auto. destruct (j - length l)%nat as [|[|m]]; simpl in Hj; discriminate.
+Qed.
+
+Lemma good_dial l n e : good l n -> good (upd e (Some n) l) (n + 1).
+Proof.
+  intros G i k H. destruct (Nat.eq_dec e i) as [->|N].
+  - destruct (nth_error l i) as [y|] eqn:Y.
+    + rewrite (nth_upd_eq _ _ _ _ Y) in H. inversion H; subst. split; [lia|].
+      intros j Hj. destruct (Nat.eq_dec i j) as [|N]; auto. rewrite nth_upd_neq in Hj by auto.
+      apply G in Hj. lia.
+    + rewrite nth_upd_none in H; auto. discriminate.
+  - rewrite nth_upd_neq in H by auto. destruct (G i k H) as [A B]. split; [lia|].
+    intros j Hj. destruct (Nat.eq_dec e j) as [->|N2].
+    + destruct (nth_error l j) as [y|] eqn:Y.
+      * rewrite (nth_upd_eq _ _ _ _ Y) in Hj. inversion Hj; subst. lia.
+      * rewrite nth_upd_none in Hj; auto. discriminate.
+    + rewrite nth_upd_neq in Hj by auto. auto.
+Qed.
+
+Section Socks.
+Variable timeout : N.
+
+Ltac dmatch H :=
+  repeat match type of H with
+         | context [match ?x with _ => _ end] => let E := fresh "E" in destruct x eqn:E; try discriminate H
+         end.
+
+Lemma close1_socks s e s' won ev : close1 s e = Some (s', won, ev) -> socks s' = socks s /\ nsock s' = nsock s.
+Proof.
+  intros H. apply close1_spec in H. destruct H as (en & G & [(C & -> & _)|(C & _ & -> & _)]); auto.
+  unfold socks. simpl. rewrite map_upd. simpl. split; auto. apply upd_same. unfold get in G. now rewrite (map_nth_error _ _ _ G).
+Qed.
+
+Lemma step_socks s a s' ev : step timeout s a = Some (s', ev) ->
+  (socks s' = socks s /\ nsock s' = nsock s) \/
+  (socks s' = socks s ++ [None] /\ nsock s' = nsock s) \/
+  (exists e, socks s' = upd e (Some (nsock s)) (socks s) /\ nsock s' = nsock s + 1).
+Proof.
+  destruct a as [sid c| | | | | | |ok|ok| |e ok|e|e ok|t e|t|t| | | |d]; simpl; intros H.
+  all: dmatch H; inversion H; subst; clear H; unfold get in *.
+  all: try (left; unfold socks; simpl; rewrite ?heap_rl_after, ?heap_sw_after, ?nsock_rl_after, ?nsock_sw_after; simpl; split; reflexivity).
+  all: try (left; unfold socks; simpl; rewrite map_upd; simpl; split; [|reflexivity];
+            match goal with G : nth_error (heap ?s) ?e = Some ?en |- upd ?e _ (map _ (heap ?s)) = _ => apply upd_same; now rewrite (map_nth_error _ _ _ G) end).
+  - (* AInsert *) right; left. unfold socks. simpl. rewrite map_app. auto.
+  - (* ADial true *) right; right. exists e. unfold socks. simpl. rewrite map_upd. auto.
+  - (* AClose1 TRL *)
+    left. rewrite nsock_rl_after. unfold socks. rewrite heap_rl_after.
+    match goal with H : closer_c1 _ _ _ = Some _ |- _ => apply closer_c1_spec in H; destruct H as (won & C & _) end.
+    eapply close1_socks; eauto.
+  - (* AClose1 TSW *)
+    left. rewrite nsock_sw_after. unfold socks. rewrite heap_sw_after.
+    match goal with H : closer_c1 _ _ _ = Some _ |- _ => apply closer_c1_spec in H; destruct H as (won & C & _) end.
+    eapply close1_socks; eauto.
+  - (* AClose1 TRP won *)
+    left. match goal with H : close1 _ _ = Some _ |- _ => destruct (close1_socks _ _ _ _ _ H) as [A B] end.
+    unfold socks in *. simpl. rewrite map_upd. simpl. rewrite <- A, <- B. split; auto.
+    apply upd_same. match goal with G : nth_error (heap s0) e = Some _ |- _ => now rewrite (map_nth_error _ _ _ G) end.
+  - (* AClose1 TRP lost *)
+    left. match goal with H : close1 _ _ = Some _ |- _ => destruct (close1_socks _ _ _ _ _ H) as [A B] end.
+    unfold socks in *. simpl. rewrite map_upd. simpl. rewrite <- A, <- B. split; auto.
+    apply upd_same. match goal with G : nth_error (heap s0) e = Some _ |- _ => now rewrite (map_nth_error _ _ _ G) end.
+  - (* ACloseDel TRL *)
+    left. rewrite nsock_rl_after. unfold socks. rewrite heap_rl_after.
+    match goal with H : closer_del _ _ = Some _ |- _ => unfold closer_del in H; dmatch H; inversion H; subst end. auto.
+  - (* ACloseDel TSW *)
+    left. rewrite nsock_sw_after. unfold socks. rewrite heap_sw_after.
+    match goal with H : closer_del _ _ = Some _ |- _ => unfold closer_del in H; dmatch H; inversion H; subst end. auto.
+Qed.
+
+Lemma step_good s a s' ev : good (socks s) (nsock s) -> step timeout s a = Some (s', ev) -> good (socks s') (nsock s').
+Proof.
+  intros G H. destruct (step_socks _ _ _ _ H) as [[A B]|[[A B]|(e & A & B)]]; rewrite A, B.
+  - exact G.
+  - now apply good_app.
+  - now apply good_dial.
+Qed.
+
+Lemma run_good acts : forall s s' tr, good (socks s) (nsock s) -> run timeout s acts = Some (s', tr) -> good (socks s') (nsock s').
+Proof.
+  induction acts as [|a t IH]; simpl; intros s s' tr G H.
+  - inversion H; subst; auto.
+  - destruct (step timeout s a) as [[s1 ev]|] eqn:S; [|discriminate].
+    destruct (run timeout s1 t) as [[s2 tr']|] eqn:R; [|discriminate].
+    inversion H; subst. eapply IH; [|exact R]. eapply step_good; eauto.
+Qed.
+
+Lemma reach_good acts s tr : run timeout init acts = Some (s, tr) -> good (socks s) (nsock s).
+Proof. apply run_good. intros [|i] k H; discriminate. Qed.
+
+(* the owner of a socket is well defined *)
+Lemma owner_unique s e en k :
+  good (socks s) (nsock s) -> nth_error (heap s) e = Some en -> e_sock en = Some k -> owner s k = Some (e_sid en).
+Proof.
+  intros G H K. unfold owner.
+  assert (U : forall e2 en2, nth_error (heap s) e2 = Some en2 -> e_sock en2 = Some k -> e2 = e).
+  { intros e2 en2 H2 K2. symmetry.
+    assert (A : nth_error (socks s) e = Some (Some k)) by (unfold socks; rewrite (map_nth_error _ _ _ H); now rewrite K).
+    assert (B : nth_error (socks s) e2 = Some (Some k)) by (unfold socks; rewrite (map_nth_error _ _ _ H2); now rewrite K2).
+    destruct (G e k A) as [_ X]. now apply X. }
+  clear G. revert e H U. induction (heap s) as [|h t IH]; intros e H U; [destruct e; discriminate|].
+  simpl. destruct (e_sock h) as [k'|] eqn:Kh.
+  - destruct (k' =? k) eqn:Q.
+    + apply N.eqb_eq in Q. subst. assert (0%nat = e) by (apply (U 0%nat h); auto). subst. simpl in H. now inversion H.
+    + destruct e as [|e]; simpl in H.
+      * inversion H; subst. rewrite K in Kh. inversion Kh; subst. rewrite N.eqb_refl in Q. discriminate.
+      * apply (IH e H). intros e2 en2 H2 K2. assert (S e2 = S e) by (apply (U (S e2) en2); auto). lia.
+  - destruct e as [|e]; simpl in H.
+    + inversion H; subst. congruence.
+    + apply (IH e H). intros e2 en2 H2 K2. assert (S e2 = S e) by (apply (U (S e2) en2); auto). lia.
+Qed.
+End Socks.
+
+(* ------------------------------------------------------------------ *)
+(* the statements of props/C07.v                                       *)
+(* ------------------------------------------------------------------ *)
+Section Final.
+Variable timeout : N.
+
+Ltac dmatch H :=
+  repeat match type of H with
+         | context [match ?x with _ => _ end] => let E := fresh "E" in destruct x eqn:E; try discriminate H
+         end.
+
+Definition reachable (s : state) : Prop := exists acts tr, run timeout init acts = Some (s, tr).
+
+Lemma reachable_Inv s : reachable s -> Inv s.
+Proof. intros (acts & tr & H). eapply reach_Inv; eauto. Qed.
+Lemma reachable_good s : reachable s -> good (socks s) (nsock s).
+Proof. intros (acts & tr & H). eapply reach_good; eauto. Qed.
+
+Lemma close1_ev s e s' won ev x : close1 s e = Some (s', won, ev) -> In x ev ->
+  exists en k, nth_error (heap s) e = Some en /\ e_sock en = Some k /\ e_closed en = false /\ e_closes en = 0%nat -> x = EClose k.
+Proof.
+  intros H I. apply close1_spec in H. destruct H as (en & G & [(_ & _ & _ & ->)|(C & _ & _ & ->)]); [destruct I|].
+  destruct (e_sock en) as [k|] eqn:K; [|destruct I]. exists en, k. intros _. destruct I as [<-|[]]. reflexivity.
+Qed.
+
+(* which action emits which event *)
+Lemma ev_write s a s' ev k sid ok : step timeout s a = Some (s', ev) -> In (EWrite k sid ok) ev ->
+  exists e en, rl s = RWrite e sid /\ nth_error (heap s) e = Some en /\ e_sock en = Some k /\ (ok = true -> e_closes en = 0%nat).
+Proof.
+  destruct a as [sid0 c| | | | | | |ok0|ok0| |e ok0|e|e ok0|t e|t|t| | | |d]; simpl; intros H I.
+  all: dmatch H; inversion H; subst; clear H; unfold get in *; simpl in I.
+  all: try contradiction.
+  all: try (destruct I as [X|[]]; discriminate X).
+  all: try (match goal with H : closer_c1 _ _ _ = Some _ |- _ => apply closer_c1_spec in H; destruct H as (won & C & _) end).
+  all: try (match goal with H : close1 _ _ = Some _ |- _ => apply close1_spec in H;
+              destruct H as (en & G & [(_ & _ & _ & ->)|(_ & _ & _ & ->)]); [destruct I|];
+              destruct (e_sock en); [destruct I as [X|[]]; discriminate X|destruct I] end).
+  all: try (match goal with H : closer_log _ _ = Some _ |- _ => unfold closer_log in H; dmatch H; inversion H; subst;
+              destruct I as [X|[]]; discriminate X end).
+  destruct I as [X|[]]. inversion X; subst. exists e, e0. repeat split; auto.
+  intros ->. simpl in *. apply negb_false_iff, Nat.eqb_eq in E2. exact E2.
+Qed.
+
+Lemma ev_read s a s' ev k : step timeout s a = Some (s', ev) -> In (ERead k true) ev ->
+  exists e en, nth_error (heap s) e = Some en /\ e_sock en = Some k /\ e_closes en = 0%nat.
+Proof.
+  destruct a as [sid0 c| | | | | | |ok0|ok0| |e ok0|e|e ok0|t e|t|t| | | |d]; simpl; intros H I.
+  all: dmatch H; inversion H; subst; clear H; unfold get in *; simpl in I.
+  all: try contradiction.
+  all: try (destruct I as [X|[]]; discriminate X).
+  all: try (match goal with H : closer_c1 _ _ _ = Some _ |- _ => apply closer_c1_spec in H; destruct H as (won & C & _) end).
+  all: try (match goal with H : close1 _ _ = Some _ |- _ => apply close1_spec in H;
+              destruct H as (en & G & [(_ & _ & _ & ->)|(_ & _ & _ & ->)]); [destruct I|];
+              destruct (e_sock en); [destruct I as [X|[]]; discriminate X|destruct I] end).
+  all: try (match goal with H : closer_log _ _ = Some _ |- _ => unfold closer_log in H; dmatch H; inversion H; subst;
+              destruct I as [X|[]]; discriminate X end).
+  destruct I as [X|[]]. inversion X; subst. exists e, e0. repeat split; auto.
+  match goal with H : (_ =? 0)%nat = true |- _ => now apply Nat.eqb_eq in H end.
+Qed.
+
+Lemma ev_send s a s' ev k sid ok : step timeout s a = Some (s', ev) -> In (ESend k sid ok) ev ->
+  exists e en, nth_error (heap s) e = Some en /\ e_sock en = Some k /\ e_sid en = sid.
+Proof.
+  destruct a as [sid0 c| | | | | | |ok0|ok0| |e ok0|e|e ok0|t e|t|t| | | |d]; simpl; intros H I.
+  all: dmatch H; inversion H; subst; clear H; unfold get in *; simpl in I.
+  all: try contradiction.
+  all: try (destruct I as [X|[]]; discriminate X).
+  all: try (match goal with H : closer_c1 _ _ _ = Some _ |- _ => apply closer_c1_spec in H; destruct H as (won & C & _) end).
+  all: try (match goal with H : close1 _ _ = Some _ |- _ => apply close1_spec in H;
+              destruct H as (en & G & [(_ & _ & _ & ->)|(_ & _ & _ & ->)]); [destruct I|];
+              destruct (e_sock en); [destruct I as [X|[]]; discriminate X|destruct I] end).
+  all: try (match goal with H : closer_log _ _ = Some _ |- _ => unfold closer_log in H; dmatch H; inversion H; subst;
+              destruct I as [X|[]]; discriminate X end).
+  all: destruct I as [X|[]]; inversion X; subst; exists e, e0; repeat split; auto.
+Qed.
+
+Lemma ev_dial s a s' ev sid r : step timeout s a = Some (s', ev) -> In (EDial sid r) ev ->
+  exists e sid' en, rl s = RInit e sid' /\ nth_error (heap s) e = Some en /\ e_sid en = sid /\ e_closed en = false /\
+    (forall k, r = Some k -> k = nsock s).
+Proof.
+  destruct a as [sid0 c| | | | | | |ok0|ok0| |e ok0|e|e ok0|t e|t|t| | | |d]; simpl; intros H I.
+  all: dmatch H; inversion H; subst; clear H; unfold get in *; simpl in I.
+  all: try contradiction.
+  all: try (destruct I as [X|[]]; discriminate X).
+  all: try (match goal with H : closer_c1 _ _ _ = Some _ |- _ => apply closer_c1_spec in H; destruct H as (won & C & _) end).
+  all: try (match goal with H : close1 _ _ = Some _ |- _ => apply close1_spec in H;
+              destruct H as (en & G & [(_ & _ & _ & ->)|(_ & _ & _ & ->)]); [destruct I|];
+              destruct (e_sock en); [destruct I as [X|[]]; discriminate X|destruct I] end).
+  all: try (match goal with H : closer_log _ _ = Some _ |- _ => unfold closer_log in H; dmatch H; inversion H; subst;
+              destruct I as [X|[]]; discriminate X end).
+  - destruct I as [X|[]]. inversion X; subst. exists e, sid0, e0. repeat split; auto. intros k Q. now inversion Q.
+  - destruct I as [X|[]]. inversion X; subst. exists e, sid0, e0. repeat split; auto. intros k Q. discriminate.
+Qed.
+
+(* C07_isolation_out *)
+Lemma isolation_out s a s' ev k sid ok :
+  reachable s -> step timeout s a = Some (s', ev) -> In (EWrite k sid ok) ev -> owner s k = Some sid.
+Proof.
+  intros R H I. destruct (ev_write _ _ _ _ _ _ _ H I) as (e & en & RW & G & K & _).
+  pose proof (reachable_Inv _ R) as (_ & _ & RO & _). unfold rl_ok in RO. rewrite RW in RO. destruct RO as [_ S].
+  unfold sidf in S. rewrite G in S. subst sid. eapply owner_unique; eauto. now apply reachable_good.
+Qed.
+
+(* C07_isolation_back *)
+Lemma isolation_back s a s' ev k sid ok :
+  reachable s -> step timeout s a = Some (s', ev) -> In (ESend k sid ok) ev -> owner s k = Some sid.
+Proof.
+  intros R H I. destruct (ev_send _ _ _ _ _ _ _ H I) as (e & en & G & K & <-).
+  eapply owner_unique; eauto. now apply reachable_good.
+Qed.
+
+(* C07_close_exactly_once *)
+Lemma close_exactly_once s : reachable s ->
+  forall e en, nth_error (heap s) e = Some en ->
+    e_closes en = (if e_closed en && has_sock en then 1%nat else 0%nat) /\ (e_closes en <= 1)%nat.
+Proof.
+  intros R e en G. pose proof (reachable_Inv _ R) as (_ & _ & _ & EI). destruct (EI e en G) as [C _].
+  split; auto. rewrite C. destruct (e_closed en && has_sock en); lia.
+Qed.
+
+Lemma no_io_after_close s a s' ev k : step timeout s a = Some (s', ev) ->
+  (exists sid, In (EWrite k sid true) ev) \/ In (ERead k true) ev ->
+  exists e en, nth_error (heap s) e = Some en /\ e_sock en = Some k /\ e_closes en = 0%nat.
+Proof.
+  intros H [[sid I]|I].
+  - destruct (ev_write _ _ _ _ _ _ _ H I) as (e & en & _ & G & K & C). exists e, en. auto.
+  - eapply ev_read; eauto.
+Qed.
+
+(* closed is forever, and a closed entry keeps its socket and close count *)
+Lemma closed_forever s a s' ev e en : step timeout s a = Some (s', ev) ->
+  nth_error (heap s) e = Some en -> e_closed en = true ->
+  exists en', nth_error (heap s') e = Some en' /\ e_closed en' = true /\ e_sock en' = e_sock en /\ e_closes en' = e_closes en /\ e_sid en' = e_sid en.
+Proof.
+  intros H G C. destruct (step_hrel _ _ _ _ _ H) as [H1 _]. destruct (H1 e en G) as (en' & G' & R).
+  destruct (erel_keeps _ _ _ R) as [S K]. destruct (K C) as (A & B & D). exists en'. auto.
+Qed.
+
+(* C07_no_dial_after_exit *)
+Lemma no_dial_after_exit s a s' ev sid r : step timeout s a = Some (s', ev) -> In (EDial sid r) ev ->
+  exists e sid' en, rl s = RInit e sid' /\ nth_error (heap s) e = Some en /\ e_sid en = sid /\ e_closed en = false.
+Proof.
+  intros H I. destruct (ev_dial _ _ _ _ _ _ H I) as (e & sid' & en & A & B & C & D & _). exists e, sid', en. auto.
+Qed.
+
+(* C07_fresh_after_expiry *)
+Lemma fresh_after_expiry s :
+  reachable s ->
+  (forall sid c s' ev, rl s = RGot sid c -> C07_UDPSessions.find sid (table s) = None ->
+     step timeout s ALookup = Some (s', ev) -> rl s' = RNew sid c) /\
+  (forall sid c s' ev, rl s = RNew sid c -> step timeout s AInsert = Some (s', ev) ->
+     rl s' = RFeed (length (heap s)) sid c /\ nth_error (heap s) (length (heap s)) = None /\
+     exists en, nth_error (heap s') (length (heap s)) = Some en /\ e_sid en = sid /\ fresh en) /\
+  (forall a s' ev sid k, step timeout s a = Some (s', ev) -> In (EDial sid (Some k)) ev ->
+     k = nsock s /\ forall e en, nth_error (heap s) e = Some en -> e_sock en <> Some k).
+Proof.
+  intros R. split; [|split].
+  - intros sid c s' ev E F H. simpl in H. rewrite E, F in H. inversion H; subst. reflexivity.
+  - intros sid c s' ev E H. simpl in H. rewrite E in H. inversion H; subst; clear H. simpl. split; auto.
+    split; [apply nth_error_None; lia|]. eexists. split; [rewrite nth_error_app2 by lia; rewrite Nat.sub_diag; reflexivity|].
+    repeat split.
+  - intros a s' ev sid k H I. destruct (ev_dial _ _ _ _ _ _ H I) as (e & sid' & en & _ & _ & _ & _ & Q).
+    specialize (Q k eq_refl). subst. split; auto. intros e2 en2 G K.
+    assert (A : nth_error (socks s) e2 = Some (Some (nsock s))) by (unfold socks; rewrite (map_nth_error _ _ _ G); now rewrite K).
+    apply (reachable_good _ R) in A. lia.
+Qed.
+
+(* C07_no_leak_at_exit *)
+Lemma no_leak_at_exit s : reachable s -> terminal s = true ->
+  table s = [] /\
+  forall e en, nth_error (heap s) e = Some en ->
+    e_closed en = true /\ reply_running en = false /\
+    (forall k, e_sock en = Some k -> e_closes en = 1%nat /\ e_pc en = PDone).
+Proof.
+  intros R T. pose proof (reachable_Inv _ R) as HI.
+  destruct (Inv_core _ HI) as (CA & CB & CC & CD). destruct HI as (_ & CV & RO & EI).
+  unfold terminal in T. apply andb_true_iff in T. destruct T as [T PCs]. apply andb_true_iff in T. destruct T as [TR TS].
+  destruct (rl s) eqn:ER; try discriminate. destruct (sw s) eqn:ES; try discriminate.
+  unfold rl_ok in RO. rewrite ER in RO. rewrite forallb_forall in PCs.
+  assert (AC : forall e en, nth_error (heap s) e = Some en -> e_closed en = true /\ pend s e = 0%nat /\
+                 match e_pc en with PNone | PDone => True | PRead => e_closes en = 0%nat | _ => False end).
+  { intros e en G. assert (L : (e < length (heap s))%nat) by (apply nth_error_Some; congruence).
+    pose proof (RO e L) as C. unfold closedf in C. rewrite G in C. split; auto.
+    pose proof (PCs en (nth_error_In _ _ G)) as P.
+    unfold pend, hp, rl_cur, sw_cur. rewrite ER, ES, G. simpl. unfold pc_pend.
+    destruct (e_pc en); try discriminate; simpl; auto. split; auto. now apply Nat.eqb_eq. }
+  assert (TE : table s = []).
+  { destruct (table s) as [|[sid e] t] eqn:TT; auto. exfalso.
+    assert (I : In (sid, e) ((sid, e) :: t)) by now left.
+    destruct (CA sid e I) as [L _]. destruct (nth_error (heap s) e) as [en|] eqn:G; [|apply nth_error_None in G; lia].
+    destruct (AC e en G) as (C & P & _).
+    assert (X : closedf s e = true) by (unfold closedf; now rewrite G).
+    destruct (CD e L X) as [[Q _]|[_ Q]]; [lia|]. now apply (Q sid). }
+  split; auto. intros e en G. destruct (AC e en G) as (C & P & PC). split; auto.
+  destruct (EI e en G) as [CO PO]. unfold closes_ok, pc_ok, has_sock in *. rewrite C in CO. simpl in CO.
+  split.
+  - unfold reply_running. destruct (e_pc en) eqn:Q; auto; try contradiction.
+    destruct (e_sock en) eqn:K; [lia|]. destruct PO as [_ PO]. discriminate (PO eq_refl).
+  - intros k K. rewrite K in CO. split; auto.
+    destruct (e_pc en) eqn:Q; auto; try contradiction; try lia.
+    destruct PO as [PO _]. pose proof (PO eq_refl) as Z. rewrite K in Z. discriminate Z.
+Qed.
+
+(* C07_active_kept / C07_idle_expiry, relative to the tick *)
+Definition sw_todo (s : state) : list nat := match sw s with SClose cl => fst cl | _ => [] end.
+Definition is_closed (s : state) (e : nat) : Prop := exists en, nth_error (heap s) e = Some en /\ e_closed en = true.
+
+Lemma sw_todo_rl_after s cl x : sw_todo (rl_after s cl x) = sw_todo s.
+Proof. unfold rl_after, sw_todo. destruct cl as [[|] [|]]; try destruct x; reflexivity. Qed.
+Lemma sw_todo_sw_after s cl : sw_todo (sw_after s cl) = fst cl.
+Proof. unfold sw_after, sw_todo. destruct cl as [[|] [|]]; reflexivity. Qed.
+
+Lemma tick_snapshot s s' ev : step timeout s ATick = Some (s', ev) ->
+  next_tick s <= now s /\ next_tick s' = next_tick s + idleCleanupIntervalMs /\
+  forall e, In e (sw_todo s') <-> In e (map snd (table s)) /\ idle timeout s e = true.
+Proof.
+  simpl. destruct (sw s) eqn:ES; try discriminate. destruct (next_tick s <=? now s) eqn:Q; [|discriminate].
+  intros H; inversion H; subst; clear H. apply N.leb_le in Q. split; auto. split.
+  - unfold sw_after. destruct (filter _ _); reflexivity.
+  - intros e. rewrite <- (filter_In (idle timeout s)). destruct (filter (idle timeout s) (map snd (table s))); simpl; tauto.
+Qed.
+
+Lemma is_closed_step s a s' ev e : step timeout s a = Some (s', ev) -> is_closed s e -> is_closed s' e.
+Proof.
+  intros H (en & G & C). destruct (closed_forever _ _ _ _ _ _ H G C) as (en' & G' & C' & _). exists en'. auto.
+Qed.
+
+Lemma close1_sw s e s' won ev : close1 s e = Some (s', won, ev) -> sw s' = sw s.
+Proof.
+  intros H. apply close1_spec in H. destruct H as (en & G & [(C & -> & _)|(C & _ & -> & _)]); reflexivity.
+Qed.
+
+Lemma sw_todo_step s a s' ev e : step timeout s a = Some (s', ev) -> In e (sw_todo s) -> In e (sw_todo s') \/ is_closed s' e.
+Proof.
+  destruct a as [sid0 c| | | | | | |ok0|ok0| |e1 ok0|e1|e1 ok0|t e1|t|t| | | |d]; simpl; intros H I.
+  all: dmatch H; inversion H; subst; clear H; unfold get in *.
+  all: try (left; rewrite ?sw_todo_rl_after; exact I).
+  all: try (unfold sw_todo in I; simpl in I;
+            repeat match goal with E : sw _ = _ |- _ => rewrite E in I end; simpl in I; contradiction).
+  - (* AClose1 TRL *)
+    left. rewrite sw_todo_rl_after.
+    match goal with H : closer_c1 _ _ _ = Some _ |- _ => apply closer_c1_spec in H; destruct H as (won & C1 & _) end.
+    unfold sw_todo in *. now rewrite (close1_sw _ _ _ _ _ C1).
+  - (* AClose1 TSW *)
+    rewrite sw_todo_sw_after.
+    match goal with E : sw s = SClose _, H : closer_c1 s _ _ = Some _ |- _ => rename E into ES; rename H into HC end.
+    unfold sw_todo in I. rewrite ES in I. apply closer_c1_spec in HC. destruct HC as (won & C1 & _ & ->).
+    destruct (Nat.eq_dec e e1) as [->|N]; [right|left; now apply In_remove_nat].
+    unfold is_closed. rewrite heap_sw_after.
+    apply close1_spec in C1. destruct C1 as (en & G & [(C & -> & _)|(C & _ & -> & _)]); unfold get in G.
+    + exists en. split; auto.
+    + eexists. split; [simpl; eapply nth_upd_eq; eauto|reflexivity].
+  - (* AClose1 TRP won *)
+    left. match goal with H : close1 _ _ = Some _ |- _ => pose proof (close1_sw _ _ _ _ _ H) as W end.
+    unfold sw_todo in *. simpl. now rewrite W.
+  - (* AClose1 TRP lost *)
+    left. match goal with H : close1 _ _ = Some _ |- _ => pose proof (close1_sw _ _ _ _ _ H) as W end.
+    unfold sw_todo in *. simpl. now rewrite W.
+  - (* ACloseLog TSW *)
+    left. match goal with H : closer_log _ _ = Some _ |- _ => unfold closer_log in H; dmatch H; inversion H; subst end.
+    unfold sw_todo in *. simpl. match goal with E : sw s = _ |- _ => rewrite E in I end. exact I.
+  - (* ACloseDel TRL *)
+    left. rewrite sw_todo_rl_after.
+    match goal with H : closer_del _ _ = Some _ |- _ => unfold closer_del in H; dmatch H; inversion H; subst end. exact I.
+  - (* ACloseDel TSW *)
+    left. rewrite sw_todo_sw_after.
+    match goal with H : closer_del _ _ = Some _ |- _ => unfold closer_del in H; dmatch H; inversion H; subst end.
+    unfold sw_todo in *. match goal with E : sw s = _ |- _ => rewrite E in I end. exact I.
+Qed.
+
+Lemma sweep_closes acts : forall s s' tr e, run timeout s acts = Some (s', tr) ->
+  In e (sw_todo s) \/ is_closed s e -> In e (sw_todo s') \/ is_closed s' e.
+Proof.
+  induction acts as [|a t IH]; simpl; intros s s' tr e H I.
+  - inversion H; subst; auto.
+  - destruct (step timeout s a) as [[s1 ev]|] eqn:S; [|discriminate].
+    destruct (run timeout s1 t) as [[s2 tr']|] eqn:R; [|discriminate].
+    inversion H; subst. eapply IH; [exact R|]. destruct I as [I|I].
+    + eapply sw_todo_step; eauto.
+    + right. eapply is_closed_step; eauto.
+Qed.
+
+(* C07_idle_expiry: an entry of the table that is idle at a tick is in the sweeper's list, and whenever
+   the sweeper is back waiting for the next tick (or has returned) that entry is closed *)
+Lemma idle_expiry s s1 ev e acts s2 tr :
+  step timeout s ATick = Some (s1, ev) -> In e (map snd (table s)) -> idle timeout s e = true ->
+  run timeout s1 acts = Some (s2, tr) -> sw_todo s2 = [] -> is_closed s2 e.
+Proof.
+  intros T I D R W. destruct (tick_snapshot _ _ _ T) as (_ & _ & X).
+  assert (A : In e (sw_todo s1)) by (apply X; auto).
+  destruct (sweep_closes _ _ _ _ e R (or_introl A)) as [B|B]; auto. rewrite W in B. destruct B.
+Qed.
+
+(* C07_active_kept: the tick selects nothing but idle entries, and the sweeper closes nothing but
+   selected entries *)
+Lemma active_kept s s1 ev e :
+  step timeout s ATick = Some (s1, ev) -> idle timeout s e = false -> ~ In e (sw_todo s1).
+Proof.
+  intros T D I. destruct (tick_snapshot _ _ _ T) as (_ & _ & X). apply X in I. destruct I. congruence.
+Qed.
+
+Lemma sweeper_closes_only_listed s e s' ev : step timeout s (AClose1 TSW e) = Some (s', ev) -> In e (sw_todo s).
+Proof.
+  simpl. destruct (sw s) as [|cl|] eqn:ES; try discriminate. destruct (closer_c1 s cl e) as [[[s0 c] ev0]|] eqn:C; [|discriminate].
+  intros _. unfold sw_todo. rewrite ES. unfold closer_c1 in C. destruct cl as [todo [x|]]; [discriminate|].
+  simpl. destruct (mem_nat e todo) eqn:M; [|discriminate]. clear C.
+  clear ES. induction todo as [|h t IH]; simpl in *; [discriminate|]. apply orb_true_iff in M. destruct M as [M|M].
+  - apply Nat.eqb_eq in M. now left.
+  - right. auto.
+Qed.
+End Final.
+
+(* non-vacuity: two sessions, one expires at the third sweep, its id is reused on a new socket,
+   the connection is lost; the run is accepted by the LTS and ends in a terminal state *)
+Definition ex_acts : list action :=
+  [ARecv 1 true; ALookup; AInsert; AFeed; ADial true; AWrite true;
+   ARecv 2 true; ALookup; AInsert; AFeed; ADial true; AWrite true;
+   AAdvance 1000; ATick;
+   ARead 1 true; AStamp 1; ASend 1 true;
+   AAdvance 1000; ATick;
+   AAdvance 1000; ATick;
+   AClose1 TSW 0; ACloseLog TSW; ACloseDel TSW;
+   ARead 0 false; AClose1 (TRP 0) 0;
+   ARecv 1 true; ALookup; AInsert; AFeed; ADial true; AWrite true;
+   ARecvErr; ASnapAll;
+   AClose1 TRL 2; ACloseLog TRL; ACloseDel TRL; AClose1 TRL 1; ACloseLog TRL; ACloseDel TRL;
+   AStop; ARead 1 false; AClose1 (TRP 1) 1; ARead 2 false; AClose1 (TRP 2) 2].
+
+Lemma example_run :
+  exists s tr, run 2000 init ex_acts = Some (s, tr) /\ terminal s = true /\ table s = [] /\
+    length (heap s) = 3%nat /\ nsock s = 3 /\
+    tr = [ERecv 1 true; EDial 1 (Some 0); EWrite 0 1 true; ERecv 2 true; EDial 2 (Some 1); EWrite 1 2 true;
+          EAdvance 1000; ERead 1 true; ESend 1 2 true; EAdvance 1000; EAdvance 1000;
+          EClose 0; ELogClose 1; ERead 0 false;
+          ERecv 1 true; EDial 1 (Some 2); EWrite 2 1 true; ERecvErr;
+          EClose 2; ELogClose 1; EClose 1; ELogClose 2; ERead 1 false; ERead 2 false].
+Proof. eexists; eexists. vm_compute. repeat split. Qed.
